@@ -141,6 +141,7 @@ class Walker:
     def __init__(self, func_info, index, inline_depth=3, no_inline=()):
         self.no_inline = set(no_inline)
         self.localprocs = {}
+        self._method_procs = {}
         self.loop_keys = {}
         self.proc_depth = 0
         self.fi = func_info
@@ -166,9 +167,33 @@ class Walker:
         return self.nid
 
     def ex(self, node):
-        if self.localprocs:
+        if self.localprocs or (self.m is not None and self.fi.cls is not None):
             node = self.call_local_procs(node)
         return self.inline_helpers(ir.from_ast(node, self.env))
+
+    def method_proc(self, call):
+        """self._helper(...) in an elaborate() context whose body is statements followed by one `return <expr>` (and is
+        not a plain expression helper): -> (FunctionDef, body) so that it can be replayed like a local function."""
+        f = call.func
+        if not (self.m is not None and self.fi.cls is not None and isinstance(f, ast.Attribute) and
+                isinstance(f.value, ast.Name) and f.value.id == "self" and f.attr not in self.no_inline):
+            return None
+        key = f.attr
+        if key in self._method_procs:
+            return self._method_procs[key]
+        out = None
+        target = self.index.lookup_method(self.fi.cls, key)
+        if target is not None and target.node is not self.fi.node and not target.is_property:
+            body = [s for s in target.node.body if not (isinstance(s, ast.Expr) and isinstance(s.value, ast.Constant))]
+            simple = all(isinstance(s, ast.Assign) and len(s.targets) == 1 and isinstance(s.targets[0], ast.Name) for s in body[:-1])
+            a = target.node.args
+            if len(body) > 1 and not simple and isinstance(body[-1], ast.Return) and body[-1].value is not None and \
+                    not any(isinstance(n, (ast.Return, ast.Yield, ast.YieldFrom, ast.Nonlocal, ast.Global))
+                            for s in body[:-1] for n in ast.walk(s)) and \
+                    not a.vararg and not a.kwarg and a.args and a.args[0].arg == "self":
+                out = (target.node, body)
+        self._method_procs[key] = out
+        return out
 
     def call_local_procs(self, node):
         """Replay multi-statement local functions at their call sites: parameters bound, the statements walked in the
@@ -178,28 +203,43 @@ class Walker:
         class T(ast.NodeTransformer):
             def visit_Call(self, call):
                 self.generic_visit(call)
-                if not (isinstance(call.func, ast.Name) and call.func.id in walker.localprocs and
-                        walker.env.get(call.func.id) == ('localproc', call.func.id)):
-                    return call
-                st, body = walker.localprocs[call.func.id]
-                params = [a.arg for a in st.args.args]
+                is_method = False
+                if isinstance(call.func, ast.Name) and call.func.id in walker.localprocs and \
+                        walker.env.get(call.func.id) == ('localproc', call.func.id):
+                    st, body = walker.localprocs[call.func.id]
+                    params = [a.arg for a in st.args.args]
+                    fname = call.func.id
+                else:
+                    mp = walker.method_proc(call)
+                    if mp is None:
+                        return call
+                    st, body = mp
+                    params = [a.arg for a in st.args.args][1:] + [a.arg for a in st.args.kwonlyargs]
+                    fname = call.func.attr
+                    is_method = True
                 if len(call.args) > len(params) or any(isinstance(a, ast.Starred) for a in call.args) or \
                         any(k.arg is None or k.arg not in params for k in call.keywords):
-                    walker.unsupported(call, f"call of local function {call.func.id} with arguments that cannot be bound")
+                    walker.unsupported(call, f"call of local function {fname} with arguments that cannot be bound")
                     return call
                 bound = {p: walker.ex(a) for p, a in zip(params, call.args)}
                 for k in call.keywords:
                     bound[k.arg] = walker.ex(k.value)
-                for p, dflt in zip(params[len(params) - len(st.args.defaults):], st.args.defaults):
+                pos = [a.arg for a in st.args.args][1 if is_method else 0:]
+                for p, dflt in zip(pos[len(pos) - len(st.args.defaults):], st.args.defaults):
                     bound.setdefault(p, walker.ex(dflt))
+                for a_, dflt in zip(st.args.kwonlyargs, st.args.kw_defaults):
+                    if dflt is not None and is_method:
+                        bound.setdefault(a_.arg, walker.ex(dflt))
                 if set(bound) != set(params):
-                    walker.unsupported(call, f"call of local function {call.func.id} leaves a parameter unbound")
+                    walker.unsupported(call, f"call of local function {fname} leaves a parameter unbound")
                     return call
                 if walker.proc_depth >= 3:
-                    walker.unsupported(call, f"local function {call.func.id} is recursive")
+                    walker.unsupported(call, f"local function {fname} is recursive")
                     return call
                 saved_env, saved_ctx = dict(walker.env), dict(walker.bind_ctx)
                 walker.proc_depth += 1
+                if is_method:
+                    walker.env = {}                 # a method sees its parameters only (self stays symbolic)
                 for p_, v in bound.items():
                     walker.bind(p_, v)
                 walker.block(body[:-1])
@@ -211,7 +251,8 @@ class Walker:
                 return ast.copy_location(ast.Name(id=tmp, ctx=ast.Load()), call)
 
         import copy
-        if not any(isinstance(n, ast.Call) and isinstance(n.func, ast.Name) and n.func.id in self.localprocs for n in ast.walk(node)):
+        if not any(isinstance(n, ast.Call) and (isinstance(n.func, ast.Name) and n.func.id in self.localprocs or
+                                                 self.method_proc(n) is not None) for n in ast.walk(node)):
             return node
         return T().visit(copy.deepcopy(node))
 
@@ -412,11 +453,56 @@ class Walker:
                 return
             self.t.calls.append((self.ex(v), self.gen, self.dsl, st.lineno))
             return
+        if isinstance(v, ast.YieldFrom) and self.inline_generator(v.value, st):
+            return
         if isinstance(v, (ast.Yield, ast.YieldFrom)):
             val = self.ex(v.value) if v.value is not None else ('const', None)
             self.t.yields.append((val, isinstance(v, ast.YieldFrom), self.gen, st.lineno))
             return
         self.t.calls.append((self.ex(v), self.gen, self.dsl, st.lineno))
+
+    def inline_generator(self, call, st):
+        """yield from helper(args) where helper is a generator function of the same module (or a method of the same class):
+        its body is walked with the parameters bound, so its yields become yields of the caller."""
+        if not isinstance(call, ast.Call) or self.inline_depth <= 0 or any(isinstance(a, ast.Starred) for a in call.args):
+            return False
+        target = None
+        skip = 0
+        f = call.func
+        if isinstance(f, ast.Name) and f.id not in self.env:
+            target = self.fi.module.functions.get(f.id)
+        elif isinstance(f, ast.Attribute) and isinstance(f.value, ast.Name) and f.value.id == "self" and self.fi.cls is not None:
+            target = self.index.lookup_method(self.fi.cls, f.attr)
+            skip = 1
+        if target is None or target.node is self.fi.node or getattr(target, "name", None) in self.no_inline:
+            return False
+        if not any(isinstance(n, (ast.Yield, ast.YieldFrom)) for n in ast.walk(target.node)):
+            return False
+        a = target.node.args
+        if a.vararg or a.kwarg:
+            return False
+        params = [x.arg for x in a.args][skip:]
+        if len(call.args) > len(params) or any(k.arg is None or k.arg not in params + [x.arg for x in a.kwonlyargs] for k in call.keywords):
+            return False
+        new_env = {p: self.ex(v) for p, v in zip(params, call.args)}
+        for k in call.keywords:
+            new_env[k.arg] = self.ex(k.value)
+        for p, dflt in zip(params[len(params) - len(a.defaults):], a.defaults):
+            new_env.setdefault(p, ir.from_ast(dflt, {}))
+        for x, dflt in zip(a.kwonlyargs, a.kw_defaults):
+            if dflt is not None:
+                new_env.setdefault(x.arg, ir.from_ast(dflt, {}))
+        if set(params) - set(new_env):
+            return False
+        saved_env, saved_bc = dict(self.env), dict(self.bind_ctx)
+        self.env = new_env
+        self.inline_depth -= 1
+        try:
+            self.block(target.node.body)
+        finally:
+            self.inline_depth += 1
+            self.env, self.bind_ctx = saved_env, saved_bc
+        return True
 
     def try_inline(self, call):
         if self.inline_depth <= 0:
@@ -839,6 +925,8 @@ class Walker:
                 key = (nit, self.gen)
         except Exception:                                   # pragma: no cover
             key = None
+        if it[0] == 'listacc':
+            return self.for_listacc(st, [self.t.lists[it[1]]])
         if key is not None and key in self.loop_keys:
             lid = self.loop_keys[key]
         else:
